@@ -11,8 +11,8 @@ from props import ext as extmod
 
 # node / element renumbering between LoadMesh and assembly (FEASolver::Cuthill, SortNodes, SortElements): model Renumber.v,
 # theorems Properties_C02_renumber.v (+ C07 / C08 / C09 parts in their own files), harness h_cuthill.cpp (props/xcm.py)
-EXTENSIONS = ["xcm"]
-EXTRA_PROPERTY_FILES = ["C02_renumber"]
+EXTENSIONS = ["xcm", "xload"]
+EXTRA_PROPERTY_FILES = ["C02_renumber", "C02_load"]
 
 LEVEL = "proof"
 COQ_MODULES = ["Marker", "MeshCheck"]
@@ -28,6 +28,8 @@ SOLVER = {"fee": "e", "feh": "h", "fem": "m"}
 def regen(ctx):
     changed, consts = translate_markers.regen(ctx.snap.src)
     ctx.marker_consts = consts
+    from props import xload
+    xload.regen(ctx)          # gen/LoadConsts.v + the anchors of the LoadMesh model
 
 
 def read_dump(path):
